@@ -92,6 +92,7 @@ def render_member(m, no_tab=False):
     if m.get('empty_param'):
         pieces.append('')
     text = m['t'] + '/' + m['s']
+    text = {'upper': text.upper(), 'title': text.title()}.get(m.get('tcase'), text)
     for piece in pieces:
         text += ws[2] + ';' + ws[3] + piece
     return ws[0] + text + ws[1]
@@ -352,6 +353,10 @@ RAW = {
     'application/*': [{'t': 'application', 's': '*', 'params': {}, 'q': 1.0}],
     'application/json; charset=utf-8': [{'t': 'application', 's': 'json', 'params': {'charset': 'utf-8'}, 'q': 1.0}],
     'text/plain; charset=UTF-8': [{'t': 'text', 's': 'plain', 'params': {'charset': 'UTF-8'}, 'q': 1.0}],
+    # type / subtype tokens are case-insensitive (RFC 9110 8.3.1)
+    'Application/JSON': [{'t': 'application', 's': 'json', 'params': {}, 'q': 1.0}],
+    'TEXT/XML': [{'t': 'text', 's': 'xml', 'params': {}, 'q': 1.0}],
+    'Text/Plain; a=1': [{'t': 'text', 's': 'plain', 'params': {'a': '1'}, 'q': 1.0}],
 }
 RAW_TEXTS = sorted(RAW)
 
